@@ -1054,3 +1054,135 @@ func ruleL9(r *Report) {
 }
 
 // ruleL7 is defined in rules_l7.go
+
+// ruleRegistryLists (C03.registry): the list of computed columns of a registry entry is handed to
+// committing transactions by LoadWithIndex without a lock. Extending it in place beyond its length
+// is invisible to a reader holding the old header; overwriting elements it already has is not:
+// a commit iterating the list skips or repeats a computed column. The rule forbids, in every
+// library function, element stores at index ≥ 1 into — and appends onto a shortened reslice of — a
+// slice that was obtained from the published registry.
+func ruleRegistryLists(r *Report) {
+	h := r.Rule("C03.registry", "def-use", "no element of a published list of computed columns is overwritten in place (store at index ≥ 1, or append onto a shortened reslice of the published list): commits iterate these lists without a lock", 2)
+	for fn := range r.P.modFunc {
+		if fn.Origin() != nil {
+			continue
+		}
+		pub := map[ssa.Value]bool{}
+		short := map[ssa.Value]bool{} // shortened reslices of published memory
+		cell := map[ssa.Value]bool{}  // local struct copies of published elements (and their field addresses)
+		allInstrs(fn, func(ins ssa.Instruction) {
+			if c, ok := ins.(*ssa.Call); ok && methodOn(&c.Call, "sync/atomic", "Value", "Load") {
+				pub[c] = true
+			}
+		})
+		if len(pub) == 0 {
+			continue
+		}
+		for changed := true; changed; {
+			changed = false
+			allInstrs(fn, func(ins ssa.Instruction) {
+				mark, sh := false, false
+				if st, isSt := ins.(*ssa.Store); isSt {
+					if al, isAl := st.Addr.(*ssa.Alloc); isAl && pub[st.Val] && !cell[al] {
+						cell[al] = true
+						changed = true
+					}
+					return
+				}
+				v, ok := ins.(ssa.Value)
+				if !ok {
+					return
+				}
+				switch x := ins.(type) {
+				case *ssa.TypeAssert:
+					mark = pub[x.X]
+				case *ssa.Extract:
+					mark = pub[x.Tuple]
+				case *ssa.Slice:
+					mark = pub[x.X]
+					sh = pub[x.X] && x.High != nil || short[x.X]
+				case *ssa.IndexAddr:
+					mark = pub[x.X]
+				case *ssa.FieldAddr:
+					mark = pub[x.X]
+					if cell[x.X] && !cell[x] {
+						cell[x] = true
+						changed = true
+					}
+				case *ssa.Field:
+					// a field of a struct copied out of published memory still points into it
+					switch x.Type().Underlying().(type) {
+					case *types.Slice, *types.Pointer, *types.Map:
+						mark = pub[x.X]
+					}
+				case *ssa.UnOp:
+					if x.Op == token.MUL && pub[x.X] {
+						mark = true // slices, pointers and struct copies (whose slice fields alias)
+					}
+					if x.Op == token.MUL && cell[x.X] {
+						switch x.Type().Underlying().(type) {
+						case *types.Slice, *types.Pointer, *types.Map:
+							mark = true // a slice field of a local copy still points into published memory
+						}
+					}
+				case *ssa.Phi:
+					for _, e := range x.Edges {
+						if pub[e] {
+							mark = true
+						}
+						if short[e] {
+							sh = true
+						}
+					}
+				case *ssa.Call:
+					if b, isB := x.Call.Value.(*ssa.Builtin); isB && b.Name() == "append" && len(x.Call.Args) > 0 {
+						// the result of appending onto a shortened published slice keeps overwriting it
+						if short[x.Call.Args[0]] {
+							mark, sh = true, true
+						}
+					}
+				}
+				if mark && !pub[v] {
+					pub[v] = true
+					changed = true
+				}
+				if sh && !short[v] {
+					short[v] = true
+					changed = true
+				}
+			})
+		}
+		var bad ssa.Instruction
+		why := ""
+		allInstrs(fn, func(ins ssa.Instruction) {
+			switch x := ins.(type) {
+			case *ssa.Store:
+				ia, ok := x.Addr.(*ssa.IndexAddr)
+				if !ok || !pub[ia.X] {
+					return
+				}
+				// element of an inner list (slice of *column), index ≥ 1 or not constant
+				if _, isSl := ia.X.Type().Underlying().(*types.Slice); !isSl {
+					return
+				}
+				if pt, isP := ia.X.Type().Underlying().(*types.Slice).Elem().(*types.Pointer); !isP || !isNamed(pt, ModPath, "column") {
+					return
+				}
+				if idx, isC := constInt(ia.Index); isC && idx == 0 {
+					return // re-stores the main column of the entry
+				}
+				bad, why = ins, "stores an element into a published list of computed columns"
+			case *ssa.Call:
+				if b, isB := x.Call.Value.(*ssa.Builtin); isB && b.Name() == "append" && len(x.Call.Args) > 0 && short[x.Call.Args[0]] {
+					bad, why = ins, "appends onto a shortened reslice of a published list of computed columns, overwriting the elements a concurrent commit is iterating"
+				}
+			}
+		})
+		n := fnName(fn)
+		if bad != nil {
+			h.Bad(n, r.P.InstrPos(bad), why)
+		} else {
+			h.OK(n, r.P.Pos(fn.Pos()), "")
+		}
+	}
+}
